@@ -31,7 +31,7 @@ namespace rkcommon {
         begin/end region of the volume */
       range_t<value_t> getValueRange(const vec3i &begin, const vec3i &end) const
       {
-        range_t<value_t> v = get(begin);
+        range_t<value_t> v;
         for_each(begin, end, [&](const vec3i &idx) { v.extend(get(idx)); });
         return v;
       }
